@@ -221,8 +221,40 @@ def frac_sqrt(q):
     return F(n, d) if n * n == q.numerator and d * d == q.denominator else None
 
 
+class Findings:
+    """input-level disagreements with the oracle, grouped per (family, observation): one
+    VIOLATION per group, for its smallest witness (lowest order first), the rest listed in the replay"""
+
+    def __init__(self, ctx):
+        self.ctx = ctx
+        self.groups = {}
+
+    def add(self, group, rank, signature, replay, what):
+        self.groups.setdefault(group, []).append((rank, signature, replay, what))
+
+    def flush(self):
+        n = 0
+        for group in sorted(self.groups):
+            items = sorted(self.groups[group], key=lambda x: x[0])
+            # a known signature anywhere in the group is reported as such, once
+            known = {k["signature"] for k in self.ctx.findings.get("known", []) if k["property"] == self.ctx.prop}
+            rest = [it for it in items if it[1] not in known]
+            for it in items:
+                if it[1] in known:
+                    self.ctx.violation(it[1], it[2], it[3])
+            if rest:
+                rank, sig, replay, what = rest[0]
+                replay = dict(replay)
+                replay["further_failing_inputs_in_group"] = [r[3] for r in rest[1:40]]
+                self.ctx.violation(sig, replay, what + (f"   [+{len(rest) - 1} more failing inputs of {group} in the replay]" if len(rest) > 1 else ""))
+                n += 1
+        self.groups = {}
+        return n
+
+
 def run(ctx):
     cov = ctx.coverage
+    fnd = Findings(ctx)
     cov["trusted_base"] += [
         "harness/translate_dist.py: Python ast -> Gallina for the formula-level methods (subset and numeric-model "
         "conventions in its docstring); cross-checked on every run by K (real code vs generated definitions, exact)",
@@ -313,38 +345,40 @@ def run(ctx):
             key = {"f": variant, "p": label["params"], "k": k}
             ctx.count(key, nontrivial=k >= 2)
             if isinstance(got, dict):
-                ctx.violation(f"{fam}.get_moment:exception", {"input": label, "k": k, "result": got},
-                              f"{fam}({', '.join(label['params'])}).get_moment({k}) raised {got['error']}: {got['msg']}")
+                fnd.add(f"{fam}.get_moment", (k, 1), f"{fam}.get_moment:exception:k={k}:params={label['params']}",
+                        {"input": label, "k": k, "result": got, "true_value": fstr(om[k])},
+                        f"{fam}({', '.join(label['params'])}).get_moment({k}) raised {got['error']}: {got['msg']} (true moment {fstr(om[k])})")
                 continue
             gotf = F(got)
             if gotf != om[k]:
                 n_mismatch_oracle += 1
                 sig = f"{fam}.get_moment(0)" if (variant == "bernoulli" and k == 0) else \
                     f"{fam}.get_moment:k={k}:params={label['params']}"
-                ctx.violation(sig, {"input": label, "k": k, "polar_value": got, "true_value": fstr(om[k]),
-                                    "oracle": "defining sum (discrete) / exact recurrence from m0 = 1 (continuous)",
-                                    "call": f"distribution_factory({fam!r}, {label['params']}).get_moment({k})"},
-                              f"{fam}({', '.join(label['params'])}).get_moment({k}) = {got}, true moment {fstr(om[k])}")
+                fnd.add(f"{fam}.get_moment", (k, 0), sig,
+                        {"input": label, "k": k, "polar_value": got, "true_value": fstr(om[k]),
+                         "oracle": "defining sum (discrete) / exact recurrence from m0 = 1 (continuous)",
+                         "call": f"distribution_factory({fam!r}, {label['params']}).get_moment({k})"},
+                        f"{fam}({', '.join(label['params'])}).get_moment({k}) = {got}, true moment {fstr(om[k])}")
             cases.append((f"Qc_eqb ({variant}_get_moment {args} {k}) {lib.cq(gotf)}", ("moment", label, k, got)))
         # support
         sup = r["support"]
         if isinstance(sup, dict):
-            ctx.violation(f"{fam}.get_support:exception", {"input": label, "result": sup},
-                          f"{fam}.get_support raised {sup['error']}")
+            fnd.add(f"{fam}.get_support", (0, 1), f"{fam}.get_support:exception", {"input": label, "result": sup},
+                    f"{fam}({', '.join(label['params'])}).get_support() raised {sup['error']}: {sup.get('msg', '')}")
         else:
             ctx.count({"f": variant, "p": label["params"], "support": 1}, nontrivial=True)
             want = oracle_support(variant, ps)
             if sorted(sup) != sorted(want):
-                ctx.violation(f"{fam}.get_support:params={label['params']}",
-                              {"input": label, "polar_support": sup, "true_support": want},
-                              f"{fam}({', '.join(label['params'])}).get_support() = {sup}, true support {want}")
+                fnd.add(f"{fam}.get_support", (0, 0), f"{fam}.get_support:params={label['params']}",
+                        {"input": label, "polar_support": sup, "true_support": want},
+                        f"{fam}({', '.join(label['params'])}).get_support() = {sup}, true support {want}")
             cases.append((f"support_eqb ({variant}_get_support {args}) {coq_support(sup)}", ("support", label, None, sup)))
         # discreteness
         disc = r["is_discrete"]
         ctx.count({"f": variant, "p": label["params"], "disc": 1}, nontrivial=False)
         if disc is not (variant in DISCRETE):
-            ctx.violation(f"{fam}.is_discrete", {"input": label, "polar": disc},
-                          f"{fam}.is_discrete() = {disc}")
+            fnd.add(f"{fam}.is_discrete", (0, 0), f"{fam}.is_discrete", {"input": label, "polar": disc, "true": variant in DISCRETE},
+                    f"{fam}({', '.join(label['params'])}).is_discrete() = {disc}")
         if isinstance(disc, bool):
             cases.append((f"Bool.eqb ({variant}_is_discrete {args}) {'true' if disc else 'false'}", ("discrete", label, None, disc)))
         # mgf_exists_at
@@ -352,15 +386,15 @@ def run(ctx):
             got = r["mgf_exists"].get(fstr(t))
             ctx.count({"f": variant, "p": label["params"], "t": fstr(t)}, nontrivial=True)
             if not isinstance(got, bool):
-                ctx.violation(f"{fam}.mgf_exists_at:exception", {"input": label, "t": fstr(t), "result": got},
-                              f"{fam}.mgf_exists_at({t}) -> {got}")
+                fnd.add(f"{fam}.mgf_exists_at", (0, 1), f"{fam}.mgf_exists_at:exception", {"input": label, "t": fstr(t), "result": got},
+                        f"{fam}({', '.join(label['params'])}).mgf_exists_at({t}) -> {got}")
                 continue
             want = oracle_mgf_exists(variant, ps, t)
             if got != want:
-                ctx.violation(f"{fam}.mgf_exists_at:t={fstr(t)}:params={label['params']}",
-                              {"input": label, "t": fstr(t), "polar": got, "true": want},
-                              f"{fam}({', '.join(label['params'])}).mgf_exists_at({t}) = {got}, the MGF "
-                              f"{'exists' if want else 'does not exist'} there")
+                fnd.add(f"{fam}.mgf_exists_at", (0, 0), f"{fam}.mgf_exists_at:t={fstr(t)}:params={label['params']}",
+                        {"input": label, "t": fstr(t), "polar": got, "true": want},
+                        f"{fam}({', '.join(label['params'])}).mgf_exists_at({t}) = {got}, the MGF "
+                        f"{'exists' if want else 'does not exist'} there")
             cases.append((f"Bool.eqb ({variant}_mgf_exists_at {args} {lib.cq(t)}) {'true' if got else 'false'}",
                           ("mgf_exists", label, fstr(t), got)))
         if variant not in HAS_MGF_FLAG and r["mgf_exists"]:
@@ -422,10 +456,10 @@ def run(ctx):
                 bad = (k, tot, irr, mo[k])
                 break
         if bad:
-            ctx.violation(f"DistTransformer:{fam}:moment", {"input": label, "rewritten": r["text"], "k": bad[0],
-                                                             "moment_after_rewriting": fstr(bad[1]), "irrational_part": fstr(bad[2]),
-                                                             "true_moment": fstr(bad[3])},
-                          f"rewriting {fam}({', '.join(sym)}) at {label['subs']} into `{r['text']}` changes the "
+            fnd.add(f"DistTransformer:{fam}", (bad[0], 0), f"DistTransformer:{fam}:moment:{label['sym_params']}:{label['subs']}",
+                    {"input": label, "rewritten": r["text"], "k": bad[0], "moment_after_rewriting": fstr(bad[1]),
+                     "irrational_part": fstr(bad[2]), "true_moment": fstr(bad[3])},
+                    f"rewriting {fam}({', '.join(sym)}) at {label['subs']} into `{r['text']}` changes the "
                           f"{bad[0]}-th moment: {fstr(bad[1])} (+{fstr(bad[2])}*sqrt) instead of {fstr(bad[3])}")
         ca = " ".join(lib.cq(x) for x in cargs)
         dist_t = "(" + ", ".join(lib.cq(x) for x in newp) + ")" if len(newp) > 1 else lib.cq(newp[0])
@@ -547,11 +581,11 @@ def run(ctx):
                     ctx.violation("Bernoulli.get_moment(0)", {"input": label, "which": which, "k": 0, "detail": st},
                                   f"Bernoulli {which} at 0 gives {st['transform_value']} but get_moment(0) = {st['moment']}")
                     continue
-                ctx.violation(f"{fam}.{which}:k={k}:params={label['params']}",
-                              {"input": label, "which": which, "k": int(k), "detail": st,
-                               "call": f"k-th Taylor coefficient at 0 of distribution_factory({fam!r}, {label['params']}).{which}(t)"},
-                              f"{fam}({', '.join(label['params'])}).{which}: derivative of order {k} at 0 gives "
-                              f"{st['transform_value']}, get_moment({k}) = {st['moment']}")
+                fnd.add(f"{fam}.{which}", (int(k), 0), f"{fam}.{which}:k={k}:params={label['params']}",
+                        {"input": label, "which": which, "k": int(k), "detail": st,
+                         "call": f"k-th Taylor coefficient at 0 of distribution_factory({fam!r}, {label['params']}).{which}(t)"},
+                        f"{fam}({', '.join(label['params'])}).{which}: derivative of order {k} at 0 gives "
+                        f"{st['transform_value']}, get_moment({k}) = {st['moment']}")
     cov["transform_validation"] = vstat
     cov["transform_validation_inconclusive"] = vdetail
 
@@ -569,10 +603,10 @@ def run(ctx):
             scale = max(1.0, abs(float(v["true"])))
             tn_max = max(tn_max, v["abs_err"] / scale)
             if v["abs_err"] > 1e-9 * scale:
-                ctx.violation(f"TruncNormal.get_moment:k={k}:params={t['params']}",
-                              {"input": {"family": "TruncNormal", "params": t["params"]}, "k": int(k), "polar_value": v["got"],
-                               "quadrature": v["true"], "abs_err": v["abs_err"]},
-                              f"TruncNormal({', '.join(t['params'])}).get_moment({k}) = {v['got']}, quadrature {v['true']}")
+                fnd.add("TruncNormal.get_moment", (int(k), 0), f"TruncNormal.get_moment:k={k}:params={t['params']}",
+                        {"input": {"family": "TruncNormal", "params": t["params"]}, "k": int(k), "polar_value": v["got"],
+                         "quadrature": v["true"], "abs_err": v["abs_err"]},
+                        f"TruncNormal({', '.join(t['params'])}).get_moment({k}) = {v['got']}, quadrature {v['true']}")
     cov["truncnormal_max_rel_err"] = tn_max
 
     stale_tasks = []
@@ -616,10 +650,13 @@ def run(ctx):
         except Exception:  # noqa
             okf = False
         if not okf:
-            ctx.violation(f"float_to_rational:{lit}", {"literal": lit, "stored": got, "exact_decimal": fstr(want), "moment2": r["moments"].get("2")},
-                          f"float literal {lit} is stored as {got}, the exact decimal is {fstr(want)}")
+            fnd.add("float_to_rational", (len(lit), 0), f"float_to_rational:{lit}",
+                    {"literal": lit, "stored": got, "exact_decimal": fstr(want), "moment2": r["moments"].get("2"),
+                     "call": f"distribution_factory('Normal', ['0', '{lit}']).sigma2"},
+                    f"float literal {lit} is stored as {got}, the exact decimal is {fstr(want)}")
 
     # ---- 7. broken translator / proof / correspondence without a differing input --------
+    fnd.flush()
     n_input_violations = len(ctx.violations)
     if tr_error is not None:
         ctx.violation("translator-abort", {"file": tr_error.file, "line": tr_error.line, "why": tr_error.why,
